@@ -90,6 +90,38 @@ static OpResult runOp(const Case& c)
         R.scalars.push_back((double)l2);
         R.scalars.push_back((double)li);
         R.scalars.push_back((double)sd);
+        // element-wise kernels against their definition (the cross-thread-count comparison cannot see a kernel whose
+        // 'n > threshold' branch is wrong for every thread count): worst deviation per kernel, 0 expected for the exact ones
+        {
+            double dAssign = 0, dAdd = 0, dSub = 0, dLin = 0, dMul = 0, dCpy = 0, dAsg = 0, dAddM = 0;
+            Vector<double> am = x;
+            add(am, y, n - 1); // threshold below n: parallel branch
+            Vector<double> am2 = x;
+            add(am2, y, n); // threshold at n: sequential branch
+            for (int i = 0; i < n; i++) {
+                const size_t o = (size_t)i;
+                dAssign        = std::max(dAssign, std::fabs(R.y[o] - 2.5));
+                dAdd           = std::max(dAdd, std::fabs(R.y[n + o] - (x[i] + y[i])));
+                dSub           = std::max(dSub, std::fabs(R.y[2 * (size_t)n + o] - (x[i] - y[i])));
+                long double l  = 1.25L * x[i] - 0.75L * y[i];
+                long double sc = fabsl(1.25L * x[i]) + fabsl(0.75L * y[i]);
+                if (sc > 0)
+                    dLin = std::max(dLin, (double)(fabsl((long double)R.y[3 * (size_t)n + o] - l) / sc));
+                dMul  = std::max(dMul, std::fabs(R.y[4 * (size_t)n + o] - 3.0 * x[i]));
+                dCpy  = std::max(dCpy, std::fabs(R.y[5 * (size_t)n + o] - x[i]));
+                dAsg  = std::max(dAsg, std::fabs(R.y[6 * (size_t)n + o] - y[i]));
+                dAddM = std::max(dAddM, std::max(std::fabs(am[i] - (x[i] + y[i])), std::fabs(am2[i] - (x[i] + y[i]))));
+            }
+            Vector<double> xe = x;
+            bool eqOk         = equals(xe, x);
+            xe[n - 1] += 1.0;
+            eqOk = eqOk && !equals(xe, x);
+            xe[n - 1] = x[n - 1];
+            xe[0] -= 1.0;
+            eqOk = eqOk && !equals(xe, x);
+            for (double v : {dAssign, dAdd, dSub, dLin, dMul, dCpy, dAsg, dAddM, eqOk ? 0.0 : 1.0})
+                R.scalars.push_back(v);
+        }
         return R;
     }
     if (op == "solver") {
@@ -327,7 +359,7 @@ int main(int argc, char** argv)
             const bool all   = c.str("perms", "few") == "all";
             g_revOnly        = c.str("perms", "few") == "rev";
             const bool audit = c.i("audit", 0) != 0;
-            long schedules = 0, epochs = 0, blocks = 0, accesses = 0, conflicts = 0, granules = 0, pairs = 0, writerEpochs = 0,
+            long schedules = 0, epochs = 0, blocks = 0, accesses = 0, conflicts = 0, granules = 0, pairs = 0, writerEpochs = 0, criticals = 0,
                  memops = 0, auditBlocks = 0, auditUnlogged = 0, regions = 0, sigMismatch = 0, outMismatch = 0;
             std::set<uint64_t> outs, scalarSets;
             std::vector<std::vector<double>> scalarVals;
@@ -347,6 +379,7 @@ int main(int argc, char** argv)
                 granules += st.granules;
                 pairs += st.pair_checks;
                 writerEpochs += st.writer_epochs;
+                criticals += st.critical_sections;
                 memops += st.memops;
                 auditBlocks += st.audit_blocks;
                 auditUnlogged += st.audit_unlogged_bytes;
@@ -447,7 +480,7 @@ int main(int argc, char** argv)
             bin.mat(id + "/s", (uint32_t)scalarVals.size(), (uint32_t)(scalarVals.empty() ? 0 : scalarVals[0].size()), flat.data());
             os << "status=ok mode=engine schedules=" << schedules << " regions=" << regions << " epochs=" << epochs
                << " baseepochs=" << base.multi_epochs << " blocks=" << blocks << " accesses=" << accesses << " granules=" << granules
-               << " pairs=" << pairs << " writerepochs=" << writerEpochs << " memops=" << memops << " conflicts=" << conflicts
+               << " pairs=" << pairs << " criticals=" << criticals << " writerepochs=" << writerEpochs << " memops=" << memops << " conflicts=" << conflicts
                << " sigmismatch=" << sigMismatch << " outmismatch=" << outMismatch << " distinctout=" << outs.size()
                << " distinctscal=" << scalarSets.size() << " auditblocks=" << auditBlocks << " auditunlogged=" << auditUnlogged
                << " diverged=" << diverged << " out=" << baseOut << " conflict=" << (conflictText.empty() ? "-" : conflictText)
